@@ -58,6 +58,8 @@ class Mixed:
         self.files = set()
         self.nout = 0
         self.seen = []           # (section, key) pairs some file of this history defines: the getters ask for them and for near misses
+        # histories that never write: keys with outer blanks are keys like any other for the setters, getters and listings
+        self.keys = KEYS + (["y ", " y", "k1\t"] if ops is not None and "write" not in ops else [])
         self.seen_by = {}        # ... per file;  src[h]: the files (or setter pairs) object h stems from
         self.src = {}
 
@@ -203,14 +205,14 @@ class Mixed:
         return self.r.choice(SECS), self.r.choice(keys)
 
     def op_keys(self, h):
-        g = self.pick_gk(KEYS, h)[0]
+        g = self.pick_gk(self.keys, h)[0]
         self.add("keys %d %s" % (h, hx(g)), lambda ev, root, h=h, g=g: [{"e": "keys", "h": h, "g": opt(g), "rc": ev["rc"], "out": [codes(x) for x in (ev.get("out") or [])]}])
 
     def op_groups(self, h):
         self.add("groups %d" % h, lambda ev, root, h=h: [{"e": "groups", "h": h, "rc": ev["rc"], "out": [codes(x) for x in (ev.get("out") or [])]}])
 
     def op_settyped(self, h):
-        g, k = self.r.choice(SECS), self.r.choice(KEYS)
+        g, k = self.r.choice(SECS), self.r.choice(self.keys)
         if self.r.random() < 0.3:
             v = self.r.choice(["yes", "No", "TRUE", "false", "1", "0", "on", "maybe", "tRuE"])
             self.add("set Bool %d %s %s %s" % (h, hx(g), hx(k), hx(v)),
@@ -223,7 +225,7 @@ class Mixed:
                  lambda ev, root, h=h, g=g, k=k, n=n, T=T: [{"e": "set", "T": T, "h": h, "g": opt(g), "k": opt(k), "v": [], "neg": n < 0, "mag": [int(c) for c in str(abs(n))], "rc": ev["rc"]}])
 
     def op_gettyped(self, h):
-        g, k = self.pick_gk(KEYS, h)
+        g, k = self.pick_gk(self.keys, h)
         T = self.r.choice(sorted(INTTYPES) + ["Bool"])
 
         def conv(ev, root, h=h, g=g, k=k, T=T):
@@ -239,7 +241,7 @@ class Mixed:
         self.add("get %s %d %s %s" % (T, h, hx(g), hx(k)), conv)
 
     def op_ext(self, h):
-        g, k = self.pick_gk(KEYS + ["a", "b", "k0", "k1"], h)
+        g, k = self.pick_gk(self.keys + ["a", "b", "k0", "k1"], h)
         self.add("ext %d %s %s" % (h, hx(g), hx(k)),
                  lambda ev, root, h=h, g=g, k=k: [{"e": "ext", "h": h, "g": opt(g), "k": opt(k), "rc": ev["rc"], "line": ev.get("line", 0),
                                                   "file": codes(self.rel(ev.get("file") or "", root)), "cb": codes(ev.get("cb") or ""), "ca": codes(ev.get("ca") or ""),
@@ -261,13 +263,13 @@ class Mixed:
         self.src[h] = []
 
     def op_set(self, h):
-        g, k, v = self.r.choice(SECS), self.r.choice(KEYS), self.r.choice(VALS)
+        g, k, v = self.r.choice(SECS), self.r.choice(self.keys), self.r.choice(VALS)
         self.src.setdefault(h, []).append((g.strip("[]") if g else None, k))
         self.add("set String %d %s %s %s" % (h, hx(g), hx(k), hx(v)),
                  lambda ev, root, h=h, g=g, k=k, v=v: [{"e": "set", "h": h, "g": opt(g), "k": opt(k), "v": opt(v), "rc": ev["rc"]}])
 
     def op_get(self, h):
-        g, k = self.pick_gk(KEYS + ["a", "b"], h)
+        g, k = self.pick_gk(self.keys + ["a", "b"], h)
         self.add("get String %d %s %s" % (h, hx(g), hx(k)),
                  lambda ev, root, h=h, g=g, k=k: [{"e": "get", "h": h, "g": opt(g), "k": opt(k), "rc": ev["rc"], "out": opt(ev.get("out"))}])
 
